@@ -467,13 +467,13 @@ def run_code_boundary(ctx, log, budget=3000000):
         ctx.notes.append("code-boundary family: %d of %d placements rejected (expected a mix: the family may not straddle the limit any more)" % (rejected, len(fam)))
 
 
-def stray_jump_family(quick, rng):
+def stray_jump_family(quick, rng, all_pres_depth=2):
     """`stop` / `volgende` under every nesting of loops, functions, blocks and branches: accepted exactly when the
     innermost enclosing loop-or-function is a loop (decided by Sem.v's static pass and by running the program)"""
     import itertools
     wrap = {
         "L": lambda n, b: "stel k%d = 0; zolang k%d < 2 { k%d += 1; %s }" % (n, n, n, b),
-        "F": lambda n, b: "functie f%d() { %s } f%d();" % (n, b, n),
+        "F": lambda n, b: "functie f%d() { stel loc%d = 7; %s; loc%d } f%d();" % (n, n, b, n, n),
         "B": lambda n, b: "{ %s }" % b,
         "I": lambda n, b: "als t >= 0 { %s }" % b,
         "E": lambda n, b: "als t < 0 { } anders { %s }" % b,
@@ -490,7 +490,7 @@ def stray_jump_family(quick, rng):
         for jump in ("stop", "volgende"):
             # what stands before the jump at its own level: nothing, a finished loop, a nested function (statement or
             # expression) - all of them for the short shapes, one in rotation for the long ones
-            for pre in (pres if len(sh) <= 2 else [pres[(len(out) // 2) % len(pres)]]):
+            for pre in (pres if len(sh) <= all_pres_depth else [pres[(len(out) // 2) % len(pres)]]):
                 body = "t += 1; %s %s; t += 100" % (pre, jump)
                 for n, w in enumerate(reversed(sh)):
                     body = wrap[w](n, body)
